@@ -10,7 +10,8 @@ CONSTANTS MaxSegs, MaxLen
 \* "combining": a base letter followed by a combining mark (not in any Unicode normal form a precomposed
 \* letter is in), "compat": a compatibility character (U+212B, U+F900) - any normalisation changes the path
 Classes    == {"plain", "upper", "digit", "blank", "percent", "hash", "question", "plus", "amp", "nonascii", "astral",
-               "combining", "compat", "cjkcompat"}
+               "combining", "compat", "cjkcompat", "rawbyte"}
+\* "rawbyte": a byte that is not valid UTF-8 (a Latin-1 file name); a path is a sequence of bytes
 Unreserved == {"plain", "upper", "digit"}
 Segs  == UNION {[1..n -> Classes] : n \in 1..MaxLen}
 Paths == UNION {[1..n -> Segs] : n \in 1..MaxSegs}
